@@ -110,6 +110,9 @@ def _pool_items(idx, v, who="alice"):
     add("ok/CreateKeyPair", F.keypair_item())
     add("ok/DeriveKey", {"op": "DeriveKey", "uids": [sk_act], "method": "PBKDF2", "attrs": la, "dp": {"params": {"hash": "SHA_256"}, "salt": "0102", "iter": 2}})
     add("ok/Get", {"op": "Get", "uid": sk_act})
+    nkw = {"eki": {"uid": sk_act, "params": {"mode": "NIST_KEY_WRAP"}}, "enc": "NO_ENCODING"}
+    add("ok/Get-wrapped", {"op": "Get", "uid": sk_pre, "wrap": nkw})
+    add("ok/Get-wrapped-secret", {"op": "Get", "uid": idx["SecretData/ACTIVE"], "wrap": nkw})
     add("ok/GetAttributes", {"op": "GetAttributes", "uid": sk_pre})
     add("ok/GetAttributeList", {"op": "GetAttributeList", "uid": sk_pre})
     add("ok/Locate", {"op": "Locate", "attrs": [["Object Type", "SymmetricKey"]]})
